@@ -2,6 +2,7 @@ package harness
 
 import (
 	"encoding/binary"
+	"encoding/json"
 	"os"
 	"path"
 	"sort"
@@ -42,6 +43,35 @@ type Node struct {
 	Minor  uint32            `json:"mi,omitempty"`
 	Xattrs map[string][]byte `json:"x,omitempty"`
 	LinkTo string            `json:"h,omitempty"` // hard link to the earlier regular file at this path
+}
+
+type nodeJSON struct {
+	Path   BStr              `json:"p"`
+	Kind   Kind              `json:"k"`
+	Perm   uint32            `json:"m"`
+	Uid    uint32            `json:"u,omitempty"`
+	Gid    uint32            `json:"g,omitempty"`
+	Mtime  int64             `json:"t,omitempty"`
+	Seed   uint32            `json:"s,omitempty"`
+	Size   int               `json:"z,omitempty"`
+	Target BStr              `json:"l,omitempty"`
+	Major  uint32            `json:"ma,omitempty"`
+	Minor  uint32            `json:"mi,omitempty"`
+	Xattrs map[string][]byte `json:"x,omitempty"`
+	LinkTo BStr              `json:"h,omitempty"`
+}
+
+func (n Node) MarshalJSON() ([]byte, error) {
+	return json.Marshal(nodeJSON{BStr(n.Path), n.Kind, n.Perm, n.Uid, n.Gid, n.Mtime, n.Seed, n.Size, BStr(n.Target), n.Major, n.Minor, n.Xattrs, BStr(n.LinkTo)})
+}
+
+func (n *Node) UnmarshalJSON(dt []byte) error {
+	var j nodeJSON
+	if err := json.Unmarshal(dt, &j); err != nil {
+		return err
+	}
+	*n = Node{string(j.Path), j.Kind, j.Perm, j.Uid, j.Gid, j.Mtime, j.Seed, j.Size, string(j.Target), j.Major, j.Minor, j.Xattrs, string(j.LinkTo)}
+	return nil
 }
 
 // Tree is a list of nodes sorted in reference order, parents present.
@@ -124,15 +154,16 @@ func (t *Tree) Normalize() {
 				continue
 			}
 		}
-		if n.Kind != KFile {
+		if n.Kind == KDir || n.Kind == KSymlink || n.Kind == KSocket {
 			n.LinkTo = ""
 		}
 		if n.LinkTo != "" {
 			tg, ok := idx[n.LinkTo]
-			if !ok || tg.Kind != KFile || tg.LinkTo != "" || CmpComponents(tg.Path, n.Path) >= 0 {
+			if !ok || tg.Kind != n.Kind || tg.LinkTo != "" || CmpComponents(tg.Path, n.Path) >= 0 {
 				n.LinkTo = ""
 			} else {
 				n.Perm, n.Uid, n.Gid, n.Mtime, n.Seed, n.Size, n.Xattrs = tg.Perm, tg.Uid, tg.Gid, tg.Mtime, tg.Seed, tg.Size, tg.Xattrs
+				n.Major, n.Minor = tg.Major, tg.Minor
 			}
 		}
 		switch n.Kind {
@@ -188,6 +219,9 @@ func (n *Node) ModeBits() uint32 {
 // Stat returns the types.Stat a conforming walker would announce for n.
 func (n *Node) Stat() *types.Stat {
 	st := &types.Stat{Path: n.Path, Mode: n.ModeBits(), Uid: n.Uid, Gid: n.Gid, ModTime: n.Mtime}
+	if n.LinkTo != "" && n.Kind != KFile {
+		st.Linkname = n.LinkTo
+	}
 	switch n.Kind {
 	case KFile:
 		if n.LinkTo != "" {
@@ -227,18 +261,19 @@ var NamePool = []string{
 var SmallPool = []string{"a", "b", "ab", "a-b", "a.b", "c", "a0", "d"}
 
 type TreeCfg struct {
-	MaxEntries int
-	MaxDepth   int
-	Names      []string
-	Kinds      []Kind // allowed kinds (dirs always allowed)
-	Xattrs     bool
-	XattrNS    []string // namespaces for xattrs, default user. (+trusted. security. when privileged)
-	Hardlinks  bool
-	BigFiles   bool     // allow sizes around and above 32 KiB
-	Uids       []uint32 // pool
-	LongNames  bool
-	BadUTF8    bool
-	SymTargets []string // extra symlink targets
+	MaxEntries   int
+	MaxDepth     int
+	Names        []string
+	Kinds        []Kind // allowed kinds (dirs always allowed)
+	Xattrs       bool
+	XattrNS      []string // namespaces for xattrs, default user. (+trusted. security. when privileged)
+	Hardlinks    bool
+	SpecialLinks bool     // also hard-link fifos and device nodes
+	BigFiles     bool     // allow sizes around and above 32 KiB
+	Uids         []uint32 // pool
+	LongNames    bool
+	BadUTF8      bool
+	SymTargets   []string // extra symlink targets
 }
 
 var DefaultKinds = []Kind{KFile, KFile, KFile, KSymlink, KFifo, KChar, KBlock}
@@ -248,21 +283,28 @@ var sizePoolBig = []int{0, 1, 17, 1000, 32767, 32768, 32769, 65536, 65537, 10000
 
 var mtimePool = []int64{0, 1, 1_000_000_000, 1_500_000_000_123_456_789, 1_700_000_000_000_000_001, 4_102_444_800_000_000_000, 946_684_800_999_999_999}
 
-func genName(t *rapid.T, cfg *TreeCfg, label string) string {
+func genName(t *rapid.T, cfg *TreeCfg, label string, siblingDirs []string) string {
 	pool := cfg.Names
 	if pool == nil {
 		pool = NamePool
 	}
 	r := rapid.IntRange(0, 99).Draw(t, label+"cls")
 	switch {
-	case cfg.LongNames && r < 3:
+	case r >= 97 && cfg.LongNames:
 		c := rapid.SampledFrom([]string{"L", "m", "é"}).Draw(t, label+"lc")
 		n := 255 / len(c)
 		return strings.Repeat(c, n)
-	case cfg.LongNames && r < 6:
+	case r >= 94 && cfg.LongNames:
 		return strings.Repeat("n", rapid.IntRange(100, 140).Draw(t, label+"ln"))
-	case cfg.BadUTF8 && r < 12:
+	case r >= 88 && cfg.BadUTF8:
 		return rapid.SampledFrom([]string{"\xff", "a\xffb", "\xe6\x97", "\xc3("}).Draw(t, label+"bad")
+	case r >= 65 && len(siblingDirs) > 0:
+		// a sibling whose name extends a directory's name with a byte that sorts
+		// below or above '/': bytewise and component-wise orders then differ
+		d := siblingDirs[rapid.IntRange(0, len(siblingDirs)-1).Draw(t, label+"sd")]
+		if len(d) < 200 {
+			return d + rapid.SampledFrom([]string{"-b", " ", "!", "#", "+", ",", "-", ".", ".b", "0", "~", "\x01"}).Draw(t, label+"suf")
+		}
 	}
 	return rapid.SampledFrom(pool).Draw(t, label)
 }
@@ -341,11 +383,17 @@ func GenTree(t *rapid.T, cfg TreeCfg, label string) *Tree {
 	dirs := []string{""} // "" = root
 	depth := map[string]int{"": 0}
 	used := map[string]bool{}
+	childDirs := map[string][]string{}
 	var files []string
 	for i := 0; i < n; i++ {
 		li := label + "." + itoa(i)
-		par := dirs[rapid.IntRange(0, len(dirs)-1).Draw(t, li+".par")]
-		name := genName(t, &cfg, li+".name")
+		// bias towards the most recent directory so directories get content
+		pi := len(dirs) - 1 - rapid.IntRange(0, len(dirs)-1).Draw(t, li+".par")
+		if rapid.IntRange(0, 2).Draw(t, li+".parlast") == 0 {
+			pi = len(dirs) - 1
+		}
+		par := dirs[pi]
+		name := genName(t, &cfg, li+".name", childDirs[par])
 		p := name
 		if par != "" {
 			p = par + "/" + name
@@ -359,6 +407,7 @@ func GenTree(t *rapid.T, cfg TreeCfg, label string) *Tree {
 		if isDir {
 			nd.Kind = KDir
 			dirs = append(dirs, p)
+			childDirs[par] = append(childDirs[par], name)
 			depth[p] = depth[par] + 1
 		} else {
 			nd.Kind = rapid.SampledFrom(kinds).Draw(t, li+".kind")
@@ -389,7 +438,22 @@ func GenTree(t *rapid.T, cfg TreeCfg, label string) *Tree {
 			if nd.Target == "" {
 				nd.Target = "a"
 			}
+		case KFifo:
+			if cfg.SpecialLinks && rapid.IntRange(0, 2).Draw(t, li+".isslink") == 0 {
+				for _, prev := range tr.Nodes {
+					if prev.Kind == KFifo && prev.LinkTo == "" {
+						nd.LinkTo = prev.Path
+					}
+				}
+			}
 		case KChar, KBlock:
+			if cfg.SpecialLinks && rapid.IntRange(0, 2).Draw(t, li+".isslink") == 0 {
+				for _, prev := range tr.Nodes {
+					if prev.Kind == nd.Kind && prev.LinkTo == "" {
+						nd.LinkTo = prev.Path
+					}
+				}
+			}
 			nd.Major = uint32(rapid.SampledFrom([]int{0, 1, 5, 8, 255, 256, 4095}).Draw(t, li+".maj"))
 			nd.Minor = uint32(rapid.SampledFrom([]int{0, 1, 3, 255, 256, 65535, 1<<20 - 1}).Draw(t, li+".min"))
 		}
